@@ -105,7 +105,7 @@ Proof.
   - destruct (x =? c); auto; try (f_equal; lia).
 Qed.
 
-(* ---- compare: the loops over the NUL-terminated views ---- *)
+(* ---- compare: the loop over the common length, then the lengths ---- *)
 Lemma cbytes_cons x l : cbytes (x :: l) = true -> 0 < x < 256 /\ cbytes l = true.
 Proof.
   unfold cbytes, bytes, nulfree, is_byte. cbn. intros H.
@@ -124,44 +124,14 @@ Proof. intros H. unfold sgn. destruct (z <? 0) eqn:E; [lia|]. destruct (0 <? z) 
 Lemma sgn_0 : sgn 0 = 0.
 Proof. reflexivity. Qed.
 
-Lemma m_compare_spec a : forall b fuel, cbytes a = true -> cbytes b = true -> (length a < fuel)%nat ->
-  sgn (m_compare fuel (a ++ [0]) (b ++ [0])) = lexcmp a b.
+(* for ALL lists (embedded NUL bytes included) *)
+Lemma m_cmp_spec a : forall b, sgn (m_cmp a b) = lexcmp a b.
 Proof.
-  induction a as [|x a IH]; intros b fuel Ha Hb Hf; (destruct fuel as [|f]; [cbn in Hf; lia|]).
-  - destruct b as [|y b]; cbn [m_compare app hd tl lexcmp].
-    + reflexivity.
-    + apply cbytes_cons in Hb. destruct Hb as (Hy & _).
-      destruct (0 =? y) eqn:E; [lia|]. apply sgn_neg. lia.
-  - apply cbytes_cons in Ha. destruct Ha as (Hx & Ha).
-    destruct b as [|y b]; cbn [m_compare app hd tl lexcmp].
-    + destruct (x =? 0) eqn:E; [lia|]. apply sgn_pos. lia.
-    + apply cbytes_cons in Hb. destruct Hb as (Hy & Hb).
-      destruct (x =? y) eqn:E.
-      * destruct (x =? 0) eqn:E0; [lia|].
-        destruct (x <? y) eqn:E1; [lia|]. destruct (y <? x) eqn:E2; [lia|].
-        apply IH; auto. cbn in Hf. lia.
-      * destruct (x <? y) eqn:E1; [apply sgn_neg; lia|].
-        destruct (y <? x) eqn:E2; [apply sgn_pos; lia|lia].
-Qed.
-
-Lemma m_compare_n_spec n : forall a b, cbytes a = true -> cbytes b = true ->
-  sgn (m_compare_n n (a ++ [0]) (b ++ [0])) = lexcmp (firstn n a) (firstn n b).
-Proof.
-  induction n as [|n IH]; intros a b Ha Hb.
-  - destruct a, b; reflexivity.
-  - destruct a as [|x a].
-    + destruct b as [|y b]; cbn [m_compare_n app hd tl lexcmp firstn].
-      * reflexivity.
-      * apply cbytes_cons in Hb. destruct Hb as (Hy & _). cbn. apply sgn_neg. lia.
-    + apply cbytes_cons in Ha. destruct Ha as (Hx & Ha).
-      destruct b as [|y b]; cbn [m_compare_n app hd tl lexcmp firstn].
-      * destruct (x =? 0) eqn:E; [lia|]. cbn. apply sgn_pos. lia.
-      * apply cbytes_cons in Hb. destruct Hb as (Hy & Hb).
-        destruct (x =? 0) eqn:E0; [lia|]. cbn [orb].
-        destruct (x =? y) eqn:E; cbn [negb].
-        -- destruct (x <? y) eqn:E1; [lia|]. destruct (y <? x) eqn:E2; [lia|]. apply IH; auto.
-        -- destruct (x <? y) eqn:E1; [apply sgn_neg; lia|].
-           destruct (y <? x) eqn:E2; [apply sgn_pos; lia|lia].
+  induction a as [|x a IH]; intros [|y b]; cbn [m_cmp lexcmp]; try reflexivity.
+  destruct (x =? y) eqn:E.
+  - destruct (x <? y) eqn:E1; [lia|]. destruct (y <? x) eqn:E2; [lia|]. apply IH.
+  - destruct (x <? y) eqn:E1; [apply sgn_neg; lia|].
+    destruct (y <? x) eqn:E2; [apply sgn_pos; lia|lia].
 Qed.
 
 Lemma cbytes_map_lower l : cbytes l = true -> cbytes (map lower l) = true.
@@ -188,17 +158,20 @@ Qed.
 Lemma sgn_zero z : sgn z = 0 <-> z = 0.
 Proof. unfold sgn. destruct (z <? 0) eqn:E; [lia|]. destruct (0 <? z) eqn:E2; lia. Qed.
 
-Lemma equals_ic_mirror a b : cbytes a = true -> cbytes b = true ->
-  b2z (m_compare (S (length a)) (map lowt a ++ [0]) (map lowt b ++ [0]) =? 0) = b2z (list_eqb (map lower a) (map lower b)).
+Lemma m_cmp_eqb a b : (m_cmp a b =? 0) = list_eqb a b.
 Proof.
-  intros Ha Hb. rewrite !map_lowt. f_equal.
-  pose proof (m_compare_spec (map lower a) (map lower b) (S (length a)) (cbytes_map_lower _ Ha) (cbytes_map_lower _ Hb)) as M.
-  rewrite map_length in M. specialize (M (Nat.lt_succ_diag_r _)).
-  destruct (list_eqb (map lower a) (map lower b)) eqn:E.
+  pose proof (m_cmp_spec a b) as M.
+  destruct (list_eqb a b) eqn:E.
   - apply list_eqb_eq in E. apply (proj2 (lexcmp_eq _ _)) in E. rewrite E in M. apply (proj1 (sgn_zero _)) in M. rewrite M. reflexivity.
-  - destruct (m_compare (S (length a)) (map lower a ++ [0]) (map lower b ++ [0]) =? 0) eqn:E2; auto.
+  - destruct (m_cmp a b =? 0) eqn:E2; auto.
     apply Z.eqb_eq in E2. rewrite E2, sgn_0 in M. symmetry in M. apply (proj1 (lexcmp_eq _ _)) in M.
     apply list_eqb_eq in M. congruence.
+Qed.
+
+Lemma list_eqb_len a b : (length a =? length b)%nat && list_eqb a b = list_eqb a b.
+Proof.
+  destruct (list_eqb a b) eqn:E; [|apply andb_false_r].
+  apply list_eqb_length in E. rewrite E, Nat.eqb_refl. reflexivity.
 Qed.
 
 (* ---- first / last position of a suffix predicate ---- *)
@@ -344,25 +317,36 @@ Proof.
   - destruct (x =? 0)%Z eqn:E; auto. apply Z.eqb_eq in E. contradiction.
 Qed.
 
-Lemma msf_dropwhile chars l : nulfree l = true ->
+Lemma memb_nulfree chars : nulfree chars = true -> memb 0%Z chars = false.
+Proof.
+  intros H. unfold memb. destruct (existsb (Z.eqb 0) chars) eqn:E; auto.
+  apply existsb_exists in E. destruct E as (x & Hx & E). apply Z.eqb_eq in E. subst x.
+  rewrite nulfree_forall in H. exfalso. eapply H; eauto.
+Qed.
+
+(* chars is a C string: on it the repaired membership test is plain membership, for every byte *)
+Lemma in_set_memb chars x : nulfree chars = true -> in_set chars x = memb x chars.
+Proof.
+  intros H. unfold in_set. destruct (x =? 0)%Z eqn:E; cbn [negb andb]; auto.
+  apply Z.eqb_eq in E. subst x. symmetry. apply memb_nulfree. exact H.
+Qed.
+
+Lemma msf_dropwhile chars l : nulfree chars = true ->
   skipn (m_skip_front chars l) l = dropwhile (fun c => memb c chars) l.
 Proof.
-  induction l as [|x t IH]; intros H; cbn; auto.
-  assert (Hx : (x =? 0)%Z = false).
-  { rewrite nulfree_forall in H. apply Z.eqb_neq. apply H. left. reflexivity. }
-  rewrite Hx. cbn [orb]. destruct (memb x chars); cbn; auto.
-  apply IH. rewrite nulfree_forall in *. intros y Hy. apply H. right. exact Hy.
+  intros H. induction l as [|x t IH]; cbn; auto.
+  rewrite (in_set_memb chars x H). destruct (memb x chars); cbn; auto.
 Qed.
 
 Lemma msf_le chars l : m_skip_front chars l <= length l.
-Proof. induction l as [|x t IH]; cbn; auto. destruct ((x =? 0)%Z || memb x chars); cbn; lia. Qed.
+Proof. induction l as [|x t IH]; cbn; auto. destruct (in_set chars x); cbn; lia. Qed.
 
-Lemma msf_app_stop chars a x b : ((x =? 0)%Z || memb x chars) = false ->
+Lemma msf_app_stop chars a x b : in_set chars x = false ->
   m_skip_front chars (a ++ x :: b) <= length a.
 Proof.
   intros H. induction a as [|y a IH]; cbn.
   - rewrite H. lia.
-  - destruct ((y =? 0)%Z || memb y chars); lia.
+  - destruct (in_set chars y); lia.
 Qed.
 
 Lemma dropwhile_head f l x t : dropwhile f l = x :: t -> f x = false.
@@ -379,29 +363,23 @@ Qed.
 Lemma rev_skipn_rev {A} (d : list A) j : rev (skipn j (rev d)) = firstn (length d - j) d.
 Proof. rewrite skipn_rev, rev_involutive. reflexivity. Qed.
 
-Lemma trim_mirror chars l : nulfree l = true ->
+Lemma trim_mirror chars l : nulfree chars = true ->
   slice l (fst (m_trim_bounds chars l)) (snd (m_trim_bounds chars l)) = s_trim chars l.
 Proof.
   intros H. unfold m_trim_bounds, s_trim, slice. cbn [fst snd].
   set (f := fun c => memb c chars).
   rewrite (msf_dropwhile chars l H). fold f.
   set (d := dropwhile f l).
-  assert (ND : nulfree d = true).
-  { rewrite nulfree_forall in *. intros x Hx. apply H. eapply dropwhile_incl; eauto. }
-  assert (NR : nulfree (rev d) = true).
-  { rewrite nulfree_forall in *. intros x Hx. apply ND. apply in_rev. exact Hx. }
   destruct d as [|x t] eqn:ED.
   - reflexivity.
   - assert (Fx : f x = false) by (eapply dropwhile_head; eauto).
-    assert (X0 : (x =? 0)%Z = false).
-    { rewrite nulfree_forall in ND. apply Z.eqb_neq. apply ND. left. reflexivity. }
     assert (BK : m_skip_front chars (rev (x :: t)) <= length (x :: t) - 1).
     { cbn [rev]. pose proof (msf_app_stop chars (rev t) x []) as M. rewrite rev_length in M.
-      cbn [length]. rewrite Nat.sub_succ, Nat.sub_0_r. apply M. rewrite X0. exact Fx. }
+      cbn [length]. rewrite Nat.sub_succ, Nat.sub_0_r. apply M. rewrite (in_set_memb chars x H). exact Fx. }
     destruct (rev (x :: t)) as [|r0 rt] eqn:ER.
     + apply (f_equal (@length Z)) in ER. rewrite rev_length in ER. cbn in ER. lia.
     + rewrite <- ER in *. rewrite Nat.min_l by exact BK.
-      unfold f. rewrite <- (msf_dropwhile chars (rev (x :: t)) NR).
+      unfold f. rewrite <- (msf_dropwhile chars (rev (x :: t)) H).
       rewrite rev_skipn_rev. reflexivity.
 Qed.
 
